@@ -231,6 +231,17 @@ CHECKS = {
              'PARTIAL (named): linearity / constant-annihilation of the horizontal operators and the constant-mode behaviour of the numerically inverted blocks are named hypotheses validated on the real code each run; T12.2 is instantiated concretely for the primitive-equation classes only (shallow water and Held-Suarez trajectories: abstract theorem + two-scale differential).',
         note=TB + 'implicit_inverse under widely different scales is compared through an a-posteriori bound computed from the matrices numpy.linalg.inv actually returned (diagonal similarity loses accuracy: measured up to 3e-10). Known finding: shallow_water.default_filters uses a tau default expressed in DEFAULT_SCALE units.',
         design='6/C12'),
+    'C08': dict(
+        technique='Lean 4 theorems about a dual-number scalar (Dino/AD.lean: JAX\'s JVP rules as arithmetic on (value, tangent)) at which the EXISTING executable models (Sigma, Interp, Filters, Implicit, the Dynamics column physics, Held-Suarez T_eq) are run unchanged, '
+                  'and about matrix JVP/VJP chains; differential correspondence jax.jvp vs the Dual Float model; finite-difference, adjointness, finiteness and scan / checkpoint gradient probes on the real code (labelled tests)',
+        text='Machine-checked proof: (T8.1) analysis is the quadrature-weighted adjoint of synthesis for every shaped basis (sum_ij w_j (S x)_ij z_ij = sum_rl x_rl (A z)_rl; entry form of both Jacobians); <J v, w> = <v, J^T w> for every matrix, preserved through any list of composed steps (induction), (J2 J1) v and (J2 J1)^T w factor as the chain rule says; '
+             '(T8.2) every operator that is linear with static coefficients is its own derivative (value part = primal, tangent part = the operator on the tangent): both transforms, vertical mat-vecs and cumulative sums, geopotential and temperature implicit operators, implicit_terms, implicit_inverse with a static step, Laplacian / inverse Laplacian / clip, filters and Robert-Asselin, shallow-water implicit terms and Schur inverse; '
+             '(T8.3) checkpoint is the identity on values, the nested checkpointed scan equals the flat scan as functions for every admissible factorisation (from C14), hence every derivative operator of one is a derivative of the other and dual-number carries agree; '
+             '(T8.4) interp is affine in the data with weights in [0,1] summing to one, its dual-number tangent wrt the query is slope * dx with slope (f_{j+1}-f_j)/(x_{j+1}-x_j) inside a cell and 0 beyond the ends, every guarded divisor is non-zero on the dividing branch; Held-Suarez T_eq = max(floor, smooth) has the tangent of the active branch and that tangent is the HasDerivAt derivative away from the kink; '
+             '(T8.5) soundness of forward mode by evaluation over the reals for +, -, *, /, powers, sin, cos, exp, log, max (Tracks closed under each, denominators / arguments guarded), instantiated for the pointwise rational kernels of the column physics (tangent = symbolic derivative, linear in the tangent, denominators positive on 0 <= q <= 1). '
+             'PARTIAL (named, by design): JAX\'s own JVP / VJP / transpose / checkpoint / scan rules are executed, not modelled; "matches a central finite difference", "reverse mode is the exact adjoint" and "finite" on whole steps are probes on the real code (measured: adjoint 1.5e-16, scan gradients 4e-16, FD within 1e-3 of its tolerance), reported as tests; ties of jnp.maximum / end nodes of interp are excluded from theorems and correspondence.',
+        note=TB + 'Modelled, not verified: JAX autodiff transformations, jax.checkpoint, jax.lax.scan.',
+        design='6/C08'),
 }
 
 NOT_YET = {
